@@ -874,6 +874,8 @@ class Interp:
             text = subst_env(c.value, fr.env)
             if text.endswith("SizedTypeProperties>::ALIGN") or text.endswith("SizedTypeProperties>::SIZE"):
                 return 8
+            if re.search(r"::\{constant#\d+\}$", text):
+                return Opaque("constant", text)       # e.g. the accessor of a thread_local! key: identified by its path
             m_ = re.match(r"\{(alloc\d+): &", text)
             if m_ and m_.group(1) in (self.P.funcs.allocs or {}):
                 cf = self.P.find_const(self.P.funcs.allocs[m_.group(1)], fr.fn)
